@@ -353,6 +353,7 @@ func (b UseBlock) String() string {
 type UseSpec struct {
 	Pkg    UsePkg
 	Mix    UseMix
+	ReverseParse bool // environment choice of the loader: later files of the package get the LOWER positions
 	Spell  Spell // SpDirect, SpLocalAlias, SpThirdAlias (importers only), SpRenamedImp (importers only)
 	Blocks []UseBlock
 	Sites  []UseSite
@@ -889,7 +890,7 @@ var UseAnalyzer = map[string]string{"TONL": "testonlychecker", "PKGO": "packageo
 // CheckUseSpec renders, analyses and compares one state of the use universe.
 func CheckUseSpec(run *common.Run, fam string, s *UseSpec) {
 	rd := RenderUse(s)
-	res, err := prog.Run(rd.Prog, prog.Opts{})
+	res, err := prog.RunOrder(rd.Prog, prog.Opts{}, s.ReverseParse)
 	if err != nil {
 		common.Fatalf("generated program does not compile (%s): %v\n%s", useSpecString(s), err, rd.Prog.Text())
 	}
@@ -998,7 +999,7 @@ func UseSpecString(s *UseSpec) string { return useSpecString(s) }
 // UseObserve returns per-site verdicts keyed by site identity for metamorphic comparisons.
 func UseObserve(fam string, s *UseSpec) (map[string]string, []string, string, string) {
 	rd := RenderUse(s)
-	res, err := prog.Run(rd.Prog, prog.Opts{})
+	res, err := prog.RunOrder(rd.Prog, prog.Opts{}, s.ReverseParse)
 	if err != nil {
 		common.Fatalf("generated program does not compile (%s): %v\n%s", useSpecString(s), err, rd.Prog.Text())
 	}
